@@ -165,7 +165,22 @@ fn clone_cell(rep: &Report, idx: usize, cell: &Cell, seed: u64) -> Option<String
     let res = (|| -> Result<(), String> {
         let n = rng.urange(64, 300);
         let src_len = rng.urange(600, 4000);
-        let source = gen::gen_source(&mut rng, gen::SrcClass::BlockRepetitive, src_len);
+        let mut source = gen::gen_source(&mut rng, gen::SrcClass::BlockRepetitive, src_len);
+        let mut unique_sum = source.len();
+        if matches!(cell.out, OutState::BlockDev(_)) {
+            // chunk-aligned repeats: the source is longer than the sum of its distinct chunks
+            let k = rng.urange(2, 4);
+            let blocks: Vec<Vec<u8>> = (0..k).map(|_| rng.bytes(n)).collect();
+            let count = rng.urange(k + 2, k + 8);
+            source = Vec::new();
+            for i in 0..count {
+                let b = if i < k { &blocks[i] } else { &blocks[rng.usize_below(k)] };
+                source.extend_from_slice(b);
+            }
+            let tail = rng.urange(0, n - 1);
+            source.extend(rng.bytes(tail));
+            unique_sum = k * n + tail;
+        }
         let arch = match scn::make_archive(&dir, "a", &source, &CompressSpec::new(Cfg::fixed(n), *rng.pick(&[Comp::None, Comp::Brotli(3)]), 64)) {
             Ok(a) => a,
             Err(_) => {
@@ -236,7 +251,15 @@ fn clone_cell(rep: &Report, idx: usize, cell: &Cell, seed: u64) -> Option<String
             OutState::Regular(_) => Some(Vec::new()),
             OutState::BlockDev(rel) => {
                 let size = match rel {
-                    -1 => rng.urange(0, source.len() - 1),
+                    // smaller than the source; half of the time not smaller than the sum of
+                    // its distinct chunks
+                    -1 => {
+                        if rng.chance(1, 2) && unique_sum < source.len() {
+                            rng.urange(unique_sum, source.len() - 1)
+                        } else {
+                            rng.urange(0, source.len() - 1)
+                        }
+                    }
                     0 => source.len(),
                     _ => source.len() + rng.urange(1, 5000),
                 };
